@@ -1058,6 +1058,11 @@ class Builtins:
                 return z3.IntVal(len(o.items))
             if isinstance(o, CSet):
                 return z3.IntVal(len(o.items))
+            if isinstance(o, LSet):
+                # the cardinality of a symbolic set: an unconstrained non-negative integer (one per set object)
+                n = z3.Int(f"card.set{v.oid}")
+                st.add(n >= 0)
+                return n
         if isinstance(v, VIter) and v.what in ("keys", "values", "items"):
             return self.length(st, v.parts[0])
         return None
@@ -1129,6 +1134,14 @@ class Builtins:
                 from . import npmodel
 
                 return z3.BoolVal(npmodel.is_arr(st, v)) if "ndarray" in n else z3.BoolVal(isinstance(v, VFl) and v.pytype == "npfloat")
+            if n in ("numpy.generic", "np.generic"):
+                # numpy scalars: numeric ones are modelled as npfloat; an arbitrary object returned by a user function
+                # may be a non-numeric numpy scalar (numpy.str_, numpy.datetime64, ...)
+                if isinstance(v, VFl):
+                    return z3.BoolVal(v.pytype == "npfloat")
+                if isinstance(v, VOpq) and v.tag == "other":
+                    return z3.Function("opq_is_numpy_scalar", core.Opq, z3.BoolSort())(v.t)
+                return z3.BoolVal(False)
             if n == "types.FunctionType":
                 return z3.BoolVal(isinstance(v, (VLambda, VFunc)) or (isinstance(v, VOpq) and v.tag == "function"))
             if n == "pyspark.sql.column.Column":
@@ -1748,6 +1761,17 @@ class Builtins:
                             out.extend(self.getitem(s, selfv, args[0]))
                         else:
                             out.append(Res(s, default))
+                return out
+            if name == "setdefault" and len(args) in (1, 2):
+                default = args[1] if len(args) > 1 else NONE
+                out = []
+                for r in self.contains(st, selfv, args[0]):
+                    for s, has in X.branch(r.st, r.v.t):
+                        if has:
+                            out.extend(self.getitem(s, selfv, args[0]))
+                        else:
+                            for o2 in self.setitem(s, selfv, args[0], default):
+                                out.append(Res(o2.st, default) if getattr(o2, "exc", None) is None else o2)
                 return out
             if name == "copy":
                 return [Res(st, self.copy_dict_value(st, selfv))]
